@@ -297,7 +297,13 @@ def corruptGo (kind : String) (sh : Shape) (comp : String) (rd : Rd Obj) (full :
     let o ← pOut kind sh
     match corruptToks full i c with
     | none => P.fail
-    | some s => corruptGo kind sh comp rd full fuel (judge v comp rd sh s o s!"token={i}:{c}")
+    | some s =>
+      let v := judge v comp rd sh s o s!"token={i}:{c}"
+      -- `corrupted_load_rejected`: a token no scanner accepts in place of any token of a written object must be rejected
+      let v := match o with
+        | .good _ _ => v.failIf (c == "abc" || c == "nan") s!"{comp} junk_token_accepted token={i}:{c}"
+        | _ => v
+      corruptGo kind sh comp rd full fuel v
 
 /-- `corrupt kind S A O | hex | n (i c outcome)*n` -/
 def corrupt : P String := do
